@@ -6,6 +6,7 @@ From Coq Require Import ZArith Bool List String Lia Permutation Sorted.
 From TV Require Import spec.Num spec.PyBase spec.PyLib model.GraphsIter.
 From TV Require Import gen.IRAst gen.Names gen.ExhaustAst gen.Exhaust gen.IterGraphs gen.GlueGen.
 From TV Require Import gen.AppendGen gen.GenerateIR.
+From TV Require model.Graphs proofs.GraphsInd proofs.GraphsSimplify proofs.GraphsAssign proofs.GraphsMerge proofs.GenGraphs_base proofs.GenGraphs_equiv.
 From TV Require proofs.Certs proofs.GenAppend_decl proofs.GenAppend_equiv proofs.Certs3Defs proofs.Certs2Input.
 Import ListNotations.
 Open Scope bool_scope.
@@ -1230,8 +1231,19 @@ Fixpoint graph_outputs_of_t (t : id_expr) (g : ig_graph) : bool :=
   end.
 Definition graph_outputs_of (d : IgDefinition) (g : ig_graph) : bool := graph_outputs_of_t (IgDefinition_output_variable d) g.
 
-Definition gen_input_safe_full : Prop := forall cap d g k f,
-  graph_outputs_of d g = true -> generate_ir cap d g k = Some f -> Certs2Input.input_safe_cert f = true.
+(** the output tensor is the FIRST parameter (input_safe_cert seeds the taint with all parameters but the first) *)
+Definition output_first (d : IgDefinition) : bool :=
+  match IgDefinition_formats d, IgDefinition_output_variable d with
+  | (n, _) :: _, IdTensor _ name _ _ => String.eqb n name
+  | _, _ => false
+  end.
+
+(** THE STATEMENT THAT REMAINS (not proved).  [names_ok] must exclude identifier collisions between the variables
+    the kernel declares (index variables, cursors, capacities, the output's arrays, buckets) and the input tensors /
+    the arrays unpacked from them; the three witnesses below show that none of the three hypotheses can be dropped. *)
+Definition gen_input_safe_full (names_ok : IgDefinition -> ig_graph -> Prop) : Prop := forall cap d g k f,
+  graph_outputs_of d g = true -> output_first d = true -> names_ok d g ->
+  generate_ir cap d g k = Some f -> Certs2Input.input_safe_cert f = true.
 
 Definition ex_tb := IdTensor "1_b" "b" ["i"] [ExhaustAst.Mode_compressed].
 Definition ex_ta := IdTensor "0_a" "a" ["i"] [ExhaustAst.Mode_compressed].
@@ -1249,3 +1261,238 @@ Example gen_input_safe_instance :
   exists f, generate_ir None ex_d ex_g GlueGen.KernelType_evaluate = Some f
             /\ Certs2Input.input_safe_cert f = true /\ graph_outputs_of ex_d ex_g = true.
 Proof. eexists. split; [vm_compute; reflexivity|]. split; vm_compute; reflexivity. Qed.
+
+(** two more hypotheses [gen_input_safe_full] cannot do without *)
+Definition ex_d_out_second := MkDefinition ex_ta [("b", MkFormat [ExhaustAst.Mode_compressed] [0%Z]); ("a", MkFormat [ExhaustAst.Mode_compressed] [0%Z])]
+                                [("i", MkTensorDimension "a" 0%Z)].
+Theorem gen_input_safe_needs_output_first :
+  exists f, generate_ir None ex_d_out_second ex_g GlueGen.KernelType_evaluate = Some f
+            /\ Certs2Input.input_safe_cert f = false /\ graph_outputs_of ex_d_out_second ex_g = true /\ output_first ex_d_out_second = false.
+Proof. eexists. split; [vm_compute; reflexivity|]. repeat split; vm_compute; reflexivity. Qed.
+
+(* the index variable is called like the value array unpacked from the input b *)
+Definition ex_tb3 := IdTensor "1_b" "b" ["b_vals"] [ExhaustAst.Mode_compressed].
+Definition ex_ta3 := IdTensor "0_a" "a" ["b_vals"] [ExhaustAst.Mode_compressed].
+Definition ex_d3 := MkDefinition ex_ta3 [("a", MkFormat [ExhaustAst.Mode_compressed] [0%Z]); ("b", MkFormat [ExhaustAst.Mode_compressed] [0%Z])]
+                                 [("b_vals", MkTensorDimension "a" 0%Z)].
+Definition ex_g3 := IgIterationNode "b_vals" (Some (ExhaustAst.MkTensorLayer ex_ta3 0%Z)) (IgTerminalNode ex_tb3).
+Theorem gen_input_safe_needs_distinct_names :
+  exists f, generate_ir None ex_d3 ex_g3 GlueGen.KernelType_evaluate = Some f
+            /\ Certs2Input.input_safe_cert f = false /\ graph_outputs_of ex_d3 ex_g3 = true /\ output_first ex_d3 = true.
+Proof. eexists. split; [vm_compute; reflexivity|]. repeat split; vm_compute; reflexivity. Qed.
+
+(** * 11. the graphs the library produces carry output layers of the TARGET tensor only *)
+Module GM := TV.model.Graphs.
+Module GS := TV.proofs.GraphsSimplify.
+Module GB := TV.proofs.GenGraphs_base.
+
+Section OUTS.
+  Variable Q : GM.olayer -> Prop.
+  Definition oq (o : option GM.olayer) : Prop := match o with Some tl => Q tl | None => True end.
+  Fixpoint outs (g : GM.graph) : Prop :=
+    match g with
+    | GM.TerminalNode _ => True
+    | GM.IterationNode _ o n => oq o /\ outs n
+    | GM.SumNode _ ts => (fix all (l : list GM.graph) : Prop := match l with [] => True | t :: r => outs t /\ all r end) ts
+    end.
+
+  Lemma outs_sum nm ts : outs (GM.SumNode nm ts) <-> Forall outs ts.
+  Proof.
+    cbn [outs]. induction ts as [|t r IH]; split; intros H; auto.
+    - destruct H as [A B]. constructor; auto. apply IH; auto.
+    - inversion H; subst. split; auto. apply IH; auto.
+  Qed.
+
+  Lemma outs_chain ixs e : outs (GM.chain_graph ixs (GM.TerminalNode e)).
+  Proof. induction ixs; cbn; auto. Qed.
+
+  Lemma map_inode_outs i o x : oq o -> Forall outs x -> Forall outs (map (GM.IterationNode i o) x).
+  Proof. intros Ho Hx. apply Forall_forall. intros g Hg. apply in_map_iff in Hg as [g' [<- Hg']].
+    rewrite Forall_forall in Hx. cbn. auto. Qed.
+
+  Lemma merge_with_outs mk : forall l r, outs l -> outs r -> Forall outs (GM.merge_with mk l r).
+  Proof.
+    induction l as [le | li lo ln IHl | ln lts _] using GraphsInd.graph_ind2;
+      induction r as [re | ri ro rn IHr | rn rts _] using GraphsInd.graph_ind2; intros Hl Hr;
+      try (cbn; repeat constructor; fail).
+    - rewrite GB.m_merge_TI. destruct Hr as [Ho Hn]. apply map_inode_outs; auto.
+    - rewrite GB.m_merge_IT. destruct Hl as [Ho Hn]. apply map_inode_outs; auto; apply IHl; cbn [outs]; auto.
+    - rewrite GB.m_merge_II. destruct Hl as [Hlo Hln]. destruct Hr as [Hro Hrn].
+      destruct (String.eqb li ri); [apply map_inode_outs; auto|].
+      apply Forall_app. split.
+      + destruct (negb _); [apply map_inode_outs; auto; apply IHl; cbn [outs]; auto | constructor].
+      + destruct (negb _); [apply map_inode_outs; auto; apply IHr; cbn [outs]; auto | constructor].
+  Qed.
+
+  Lemma next_terms_outs nx : outs nx -> Forall outs (GM.next_terms_of nx).
+  Proof. destruct nx; cbn [GM.next_terms_of]; intros H; [constructor; [exact H | constructor] | constructor; [exact H | constructor] | apply outs_sum in H; auto]. Qed.
+
+  Lemma finish_outs name l : Forall outs l -> outs (GS.finish name l).
+  Proof. intros H. unfold GS.finish. destruct l as [|a [|b r]]; try (apply outs_sum; auto). inversion H; auto. Qed.
+
+  Lemma simplify_outs : forall fuel name ts g, GM.simplify_fuel fuel name ts = Some g -> Forall outs ts -> outs g.
+  Proof.
+    induction fuel as [|f IH]; intros name ts g H HF; [discriminate|].
+    rewrite GS.simplify_fuel_S in H.
+    destruct (GM.sequence (map (GS.inode_of f name) (snd (GM.split_terms ts [] [])))) as [inodes|] eqn:Eseq; [|discriminate].
+    injection H as <-.
+    pose proof (GS.split_terms_groups ts) as GO. rewrite Forall_forall in GO.
+    apply GS.sequence_Forall2 in Eseq.
+    apply finish_outs. apply Forall_app. split.
+    - destruct (fst (GM.split_terms ts [] [])); cbn; repeat constructor.
+    - revert GO Eseq. generalize (snd (GM.split_terms ts [] [])) as groups. intros groups GO Eseq.
+      revert GO. induction Eseq as [|[i vs] x gs xs Hx _ IHs]; intros GO; [constructor|]. constructor.
+      + destruct (GO (i, vs) (or_introl eq_refl)) as [Hvs Hin]. cbn [fst snd] in *.
+        unfold GS.inode_of in Hx. destruct vs as [|[o n0] rest]; [congruence|].
+        destruct (GM.simplify_fuel f name _) as [n'|] eqn:En; [|discriminate]. injection Hx as <-.
+        rewrite Forall_forall in HF.
+        assert (Hv : forall o' nx, In (o', nx) ((o, n0) :: rest) -> oq o' /\ outs nx).
+        { intros o' nx Hv. exact (HF _ (Hin o' nx Hv)). }
+        split; [exact (proj1 (Hv o n0 (or_introl eq_refl)))|].
+        apply (IH name _ n' En). apply Forall_forall. intros t Ht. apply in_flat_map in Ht as [[o' nx] [Hv' Ht]]. cbn [snd] in Ht.
+        pose proof (next_terms_outs nx (proj2 (Hv o' nx Hv'))) as A. rewrite Forall_forall in A. auto.
+      + apply IHs. intros g Hg. apply GO. now right.
+  Qed.
+
+  Lemma simplify_add_outs name ts : Forall outs ts -> outs (GM.simplify_add name ts).
+  Proof. intros H. destruct (GS.simplify_add_spec name ts) as [g [Eg <-]]. eapply simplify_outs; eauto. Qed.
+
+  Lemma sum_terms_outs l r : outs l -> outs r -> Forall outs (GM.sum_terms l r).
+  Proof.
+    intros Hl Hr. destruct l as [le|li lo ln|ln lt]; destruct r as [re|ri ro rn|rn rt]; cbn [GM.sum_terms];
+      try (repeat constructor; auto; fail);
+      try apply outs_sum in Hl; try apply outs_sum in Hr;
+      try (apply Forall_app; split; auto); try (constructor; auto); repeat constructor; auto.
+  Qed.
+End OUTS.
+
+Section OUTS2.
+  Variable Q : GM.olayer -> Prop.
+  Notation outs := (outs Q).
+
+  Lemma expr_graphs_outs : forall e fs c gs, GM.expr_graphs e fs c = GM.ROk gs -> Forall outs gs.
+  Proof.
+    induction e as [v|h|t|l IHl r IHr|l IHl r IHr|i x IH]; intros fs c gs H; cbn [GM.expr_graphs] in H.
+    - injection H as <-. repeat constructor.
+    - injection H as <-. repeat constructor.
+    - unfold GM.tensor_graphs in H.
+      destruct (GM.lookup (GM.d_name t) fs); [|discriminate]. destruct (GM.identify t fs); [|discriminate].
+      destruct (negb _); [discriminate|]. destruct (GM.sequence _); [|discriminate]. injection H as <-.
+      apply Forall_forall. intros g Hg. apply in_map_iff in Hg as [ixs [<- _]]. apply outs_chain.
+    - destruct (negb (GM.contains_contraction l || GM.contains_contraction r)).
+      + apply Forall_forall. intros g Hg.
+        destruct (GraphsMerge.for_both_ok _ _ _ _ _ H g Hg) as [ls [rs [lg [rg [El [Er [Hl [Hr Hb]]]]]]]].
+        pose proof (IHl _ _ _ El) as A. pose proof (IHr _ _ _ Er) as B. rewrite Forall_forall in A, B.
+        pose proof (merge_with_outs Q GM.IAdd lg rg (A _ Hl) (B _ Hr)) as C. rewrite Forall_forall in C. auto.
+      + apply Forall_forall. intros g Hg.
+        destruct (GraphsMerge.for_both_ok _ _ _ _ _ H g Hg) as [ls [rs [lg [rg [El [Er [Hl [Hr Hb]]]]]]]].
+        pose proof (IHl _ _ _ El) as A. pose proof (IHr _ _ _ Er) as B. rewrite Forall_forall in A, B.
+        destruct Hb as [<-|[]]. apply simplify_add_outs. apply sum_terms_outs; auto.
+    - apply Forall_forall. intros g Hg.
+      destruct (GraphsMerge.for_both_ok _ _ _ _ _ H g Hg) as [ls [rs [lg [rg [El [Er [Hl [Hr Hb]]]]]]]].
+      pose proof (IHl _ _ _ El) as A. pose proof (IHr _ _ _ Er) as B. rewrite Forall_forall in A, B.
+      pose proof (merge_with_outs Q GM.IMultiply lg rg (A _ Hl) (B _ Hr)) as C. rewrite Forall_forall in C. auto.
+    - eapply IH; eauto.
+  Qed.
+
+  Lemma merge_assignment_outs : forall e, outs e ->
+    forall tgt, Forall (fun t => Q (snd t)) tgt -> Forall outs (GM.merge_assignment e tgt).
+  Proof.
+    induction e as [x | ei eo en IHe | name terms IHterms] using GraphsInd.graph_ind2; intros He;
+      induction tgt as [|[ti tl] ts IHt]; intros HQ;
+      try (rewrite GraphsAssign.ma_nil; constructor; [exact He | constructor]).
+    - inversion HQ; subst. rewrite GraphsAssign.ma_T. apply map_inode_outs; auto.
+    - inversion HQ as [|? ? Hq HQ']; subst. cbn [snd] in Hq. destruct He as [Heo Hen].
+      rewrite GraphsAssign.ma_I.
+      destruct (String.eqb ti ei); [apply map_inode_outs; auto|].
+      apply Forall_app. split.
+      + destruct (negb _); [apply map_inode_outs; auto | constructor].
+      + destruct (negb _ && negb _); [apply map_inode_outs; auto | constructor].
+    - rewrite GraphsAssign.ma_S. apply Forall_forall. intros g Hg.
+      apply in_map_iff in Hg as [merged [<- Hm]].
+      apply GraphsAssign.product_Forall2 in Hm.
+      apply simplify_add_outs. apply outs_sum in He.
+      rewrite Forall_forall in IHterms, He.
+      assert (G : forall l, (forall t, In t l -> In t terms) ->
+                forall mg, Forall2 (fun x ls => In x ls) mg (map (fun x => GM.merge_assignment x ((ti, tl) :: ts)) l) ->
+                Forall outs mg).
+      { induction l as [|t r IHl]; intros Hsub mg F2; inversion F2; subst; constructor.
+        - assert (Ht : In t terms) by (apply Hsub; now left).
+          pose proof (IHterms t Ht (He t Ht) ((ti, tl) :: ts) HQ) as P. rewrite Forall_forall in P. auto.
+        - apply IHl; [intros; apply Hsub; now right | assumption]. }
+      apply (G terms (fun t H => H) merged Hm).
+  Qed.
+End OUTS2.
+
+Lemma target_chain_tensor tr : forall order c, GM.target_chain tr order = Some c -> Forall (fun t => GM.ol_tensor (snd t) = tr) c.
+Proof.
+  unfold GM.target_chain. induction order as [|o r IH]; intros c H; cbn in H.
+  - injection H as <-. constructor.
+  - destruct (nth_error (GM.t_indexes tr) o); [|discriminate].
+    destruct (GM.sequence _) as [xs|] eqn:E; [|discriminate]. injection H as <-.
+    constructor; [reflexivity | apply IH; reflexivity].
+Qed.
+
+Lemma sequence_In {A} : forall (l : list (option A)) xs x, GM.sequence l = Some xs -> In x xs -> In (Some x) l.
+Proof.
+  induction l as [|[a|] l IH]; intros xs x H Hx; cbn in H; try discriminate.
+  - injection H as <-. contradiction.
+  - destruct (GM.sequence l) as [ys|] eqn:E; [|discriminate]. injection H as <-.
+    destruct Hx as [<-|Hx]; [now left | right; eapply IH; eauto].
+Qed.
+
+(** every graph of today's enumeration carries output layers of the identified TARGET tensor only *)
+Theorem src_graphs_outputs a fs gs tr :
+  GenGraphs_equiv.to_iteration_graphs_src a fs = GM.ROk gs -> GM.identify (GM.a_target a) fs = Some tr ->
+  Forall (outs (fun tl => GM.ol_tensor tl = tr)) gs.
+Proof.
+  intros H Hid. unfold GenGraphs_equiv.to_iteration_graphs_src, GM.target_chains in H. rewrite Hid in H.
+  destruct (GM.lookup (GM.d_name (GM.a_target a)) fs) as [f|]; [|discriminate].
+  destruct (negb _); [discriminate|].
+  destruct (GM.sequence (map (GM.target_chain tr) (GM.legal_iteration_orders f))) as [cs|] eqn:ES; [|discriminate].
+  match type of H with match filter ?p cs with _ => _ end = _ => set (sup := filter p cs) in *; assert (Hsup : incl sup cs) by (intros x Hx; apply filter_In in Hx; tauto) end.
+  assert (Hcs : forall c, In c cs -> Forall (fun t => GM.ol_tensor (snd t) = tr) c).
+  { intros c Hc. pose proof (sequence_In _ _ _ ES Hc) as Hin. apply in_map_iff in Hin as [o [Eo _]]. eapply target_chain_tensor; eauto. }
+  destruct sup as [|s0 ss] eqn:Esup; [injection H as <-; constructor|]. rewrite <- Esup in *.
+  destruct (GM.expr_graphs (GM.a_expr a) fs 1) as [es| |] eqn:Ee; try discriminate. injection H as <-.
+  pose proof (expr_graphs_outs (fun tl => GM.ol_tensor tl = tr) _ _ _ _ Ee) as He. rewrite Forall_forall in He.
+  apply Forall_forall. intros g Hg. apply in_flat_map in Hg as [tgt [Ht Hg]]. apply in_flat_map in Hg as [e [Hein Hg]].
+  pose proof (merge_assignment_outs (fun tl => GM.ol_tensor tl = tr) e (He e Hein) tgt (Hcs tgt (Hsup tgt Ht))) as P.
+  rewrite Forall_forall in P. auto.
+Qed.
+
+(** ... carried to the regenerated types: the hypothesis of [gen_input_safe_full] holds for them *)
+Lemma list_eqb_refl {A} (e : A -> A -> bool) : (forall x, e x x = true) -> forall l, list_eqb e l l = true.
+Proof. intros He. induction l as [|x l IH]; cbn; auto. rewrite He, IH. reflexivity. Qed.
+Lemma up_tref_eqb_refl t : id_expr_eqb (GB.up_tref t) (GB.up_tref t) = true.
+Proof.
+  unfold GB.up_tref. cbn [id_expr_eqb]. rewrite !String.eqb_refl, !list_eqb_refl; auto.
+  - intros []; reflexivity.
+  - apply String.eqb_refl.
+Qed.
+
+Lemma outs_up fval tr : forall g, outs (fun tl => GM.ol_tensor tl = tr) g ->
+  graph_outputs_of_t (GB.up_tref tr) (GB.up_graph fval g) = true.
+Proof.
+  induction g as [e | i o n IH | nm ts IH] using GraphsInd.graph_ind2; intros H.
+  - reflexivity.
+  - destruct H as [Ho Hn]. cbn [GB.up_graph graph_outputs_of_t]. destruct o as [tl|]; cbn [option_map]; [|auto].
+    cbn in Ho. subst tr. unfold GB.up_ol. rewrite up_tref_eqb_refl. cbn. auto.
+  - apply outs_sum in H. cbn [GB.up_graph graph_outputs_of_t]. apply forallb_forall. intros x Hx.
+    apply in_map_iff in Hx as [t [<- Ht]]. rewrite Forall_forall in IH, H. auto.
+Qed.
+
+Theorem gen_library_graphs_outputs fval a fs gs tr :
+  GenGraphs_equiv.to_iteration_graphs_src a fs = GM.ROk gs -> GM.identify (GM.a_target a) fs = Some tr ->
+  Forall (fun g => graph_outputs_of_t (GB.up_tref tr) (GB.up_graph fval g) = true) gs.
+Proof.
+  intros H Hid. pose proof (src_graphs_outputs _ _ _ _ H Hid) as P. rewrite Forall_forall in P |- *.
+  intros g Hg. apply outs_up. auto.
+Qed.
+
+(** for a Definition built as generate_module_tensora builds it (output_variable = to_identifiable(target) = up_tref tr by
+    GenGlue_equiv.gen_to_identifiable_identify), whatever its formats and dimensions *)
+Corollary gen_library_graphs_outputs_definition fval a fs gs tr fmts dims :
+  GenGraphs_equiv.to_iteration_graphs_src a fs = GM.ROk gs -> GM.identify (GM.a_target a) fs = Some tr ->
+  Forall (fun g => graph_outputs_of (MkDefinition (GB.up_tref tr) fmts dims) (GB.up_graph fval g) = true) gs.
+Proof. intros H Hid. exact (gen_library_graphs_outputs fval a fs gs tr H Hid). Qed.
